@@ -17,8 +17,9 @@ Definition spec_signing_input (hdr_octets payload : bytes) (b64 : bool) : bytes 
 (* ECDSA: R || S as I2OSP (RFC 8017 section 4.1) of length L = ceil(bits / 8) *)
 Definition spec_ecdsa_sig (r s : N) (L : nat) : bytes := I2OSP r L ++ I2OSP s L.
 
+Inductive skind := KNone | KHmac | KPkcs | KPss | KEcdsa | KEddsa.
 Record spec_alg := {
-  sa_name : string; sa_kty : string; sa_kind : string;   (* "HMAC" | "PKCS1v15" | "PSS" | "ECDSA" | "EdDSA" | "none" *)
+  sa_name : string; sa_kty : string; sa_kind : skind;
   sa_hash : string; sa_mgf : string; sa_salt : N; sa_curve : string; sa_L : N
 }.
 Definition mk n kty kind h mgf salt crv L : spec_alg :=
@@ -27,19 +28,52 @@ Definition mk n kty kind h mgf salt crv L : spec_alg :=
 (* RFC 7518 section 3.1 + RFC 8037 + RFC 8812; hash output lengths 32 / 48 / 64 octets;
    coordinate lengths 32 (P-256, secp256k1), 48 (P-384), 66 (P-521) octets *)
 Definition spec_table : list spec_alg := [
-  mk "none" "oct" "none" "" "" 0 "" 0;
-  mk "HS256" "oct" "HMAC" "sha256" "" 0 "" 0;
-  mk "HS384" "oct" "HMAC" "sha384" "" 0 "" 0;
-  mk "HS512" "oct" "HMAC" "sha512" "" 0 "" 0;
-  mk "RS256" "RSA" "PKCS1v15" "sha256" "" 0 "" 0;
-  mk "RS384" "RSA" "PKCS1v15" "sha384" "" 0 "" 0;
-  mk "RS512" "RSA" "PKCS1v15" "sha512" "" 0 "" 0;
-  mk "ES256" "EC" "ECDSA" "sha256" "" 0 "P-256" 32;
-  mk "ES384" "EC" "ECDSA" "sha384" "" 0 "P-384" 48;
-  mk "ES512" "EC" "ECDSA" "sha512" "" 0 "P-521" 66;
-  mk "PS256" "RSA" "PSS" "sha256" "sha256" 32 "" 0;
-  mk "PS384" "RSA" "PSS" "sha384" "sha384" 48 "" 0;
-  mk "PS512" "RSA" "PSS" "sha512" "sha512" 64 "" 0;
-  mk "EdDSA" "OKP" "EdDSA" "" "" 0 "" 0;
-  mk "ES256K" "EC" "ECDSA" "sha256" "" 0 "secp256k1" 32
+  mk "none" "oct" KNone "" "" 0 "" 0;
+  mk "HS256" "oct" KHmac "sha256" "" 0 "" 0;
+  mk "HS384" "oct" KHmac "sha384" "" 0 "" 0;
+  mk "HS512" "oct" KHmac "sha512" "" 0 "" 0;
+  mk "RS256" "RSA" KPkcs "sha256" "" 0 "" 0;
+  mk "RS384" "RSA" KPkcs "sha384" "" 0 "" 0;
+  mk "RS512" "RSA" KPkcs "sha512" "" 0 "" 0;
+  mk "ES256" "EC" KEcdsa "sha256" "" 0 "P-256" 32;
+  mk "ES384" "EC" KEcdsa "sha384" "" 0 "P-384" 48;
+  mk "ES512" "EC" KEcdsa "sha512" "" 0 "P-521" 66;
+  mk "PS256" "RSA" KPss "sha256" "sha256" 32 "" 0;
+  mk "PS384" "RSA" KPss "sha384" "sha384" 48 "" 0;
+  mk "PS512" "RSA" KPss "sha512" "sha512" 64 "" 0;
+  mk "EdDSA" "OKP" KEddsa "" "" 0 "" 0;
+  mk "ES256K" "EC" KEcdsa "sha256" "" 0 "secp256k1" 32
 ]%string.
+
+(* ---------- verification, RFC 7515 section 5.2 (steps 2-8 on the compact form) ----------
+   The primitives: HMAC (RFC 2104), RSASSA-PKCS1-v1_5 / RSASSA-PSS verification
+   (RFC 8017), ECDSA verification on the integers (R, S), EdDSA verification
+   (RFC 8032), each for the parameters of the Spec row. *)
+Definition OS2IP (l : bytes) : Z := Z.of_N (be_to_N l).
+
+Section SpecVerify.
+  Variable S_mac : string -> N -> bytes -> res bytes.
+  Variable S_pk_verify : spec_alg -> N -> bytes -> bytes -> res bool.
+  Variable S_ec_verify : spec_alg -> N -> bytes -> Z -> Z -> res bool.
+
+  (* the signature [sig] over [msg] is valid for algorithm [a] under the key
+     (material [kid], key type [kty], curve [crv]) *)
+  Definition spec_sig_ok (a : spec_alg) (kid : N) (kty crv : string) (msg sig : bytes) : Prop :=
+    sa_kty a = kty /\
+    match sa_kind a with
+    | KNone => False                                   (* RFC 7518 3.6: no integrity *)
+    | KHmac => S_mac (sa_hash a) kid msg = Ok sig      (* 3.2: recompute and compare *)
+    | KPkcs | KPss => S_pk_verify a kid msg sig = Ok true
+    | KEddsa => (crv = "Ed25519" \/ crv = "Ed448")%string /\ S_pk_verify a kid msg sig = Ok true
+    | KEcdsa =>                                        (* 3.4: split the 2L octets into R and S *)
+        crv = sa_curve a /\ (0 < sa_L a) /\ length sig = (2 * N.to_nat (sa_L a))%nat /\
+        S_ec_verify a kid msg (OS2IP (firstn (N.to_nat (sa_L a)) sig))
+                              (OS2IP (skipn (N.to_nat (sa_L a)) sig)) = Ok true
+    end.
+
+  (* a compact JWS  BASE64URL(hdr) . BASE64URL(payload) . BASE64URL(sig)  is valid
+     for algorithm a and that key *)
+  Definition spec_verify_compact (a : spec_alg) (kid : N) (kty crv : string)
+             (hdr payload sig : bytes) : Prop :=
+    spec_sig_ok a kid kty crv (spec_signing_input hdr payload true) sig.
+End SpecVerify.
